@@ -219,7 +219,7 @@ theorem handleClosed_np (e : Engine) (hinv : Inv e) : e.handleClosed.2.NP := by
   · exact Res.NP.err _
   · simp only []
     let e0 : Engine := { e with state := .disconnected, connackDeadline := none, nextPing := none, pingDeadline := none, timeouts := [] }
-    have hok0 : e0.core.Ok := ((Pres.of_core_conn (e := e) (e' := e0) false rfl (by simp)) hok).1
+    have hok0 : e0.core.Ok := ((Pres.of_core_conn_to (e := e) (e' := e0) false [] rfl (by simp) (by simp)) hok).1
     have h0 : Big [] [] e0.view := by
       show Big [] [] { e.view with state := .disconnected, noTimeouts := true, connackSet := false }
       exact { h with h1 := (fun hh => by cases hh), c1 := (fun hh => by cases hh), f := (fun hh => by cases hh) }
@@ -701,10 +701,10 @@ theorem handleConnack_np (e : Engine) (c : Connack) (hinv : Inv e) (hx : Extra f
             by_cases hd : e.cfg.drainOneAtATime = true
             · have : (!e1.cfg.drainOneAtATime) = false := by simp [e1, hd]
               rw [if_neg (by simp [this])]
-              exact ⟨⟨hok0.sorted, hok0.ids, hok0.userKind, hok0.wc, fun _ _ => rfl⟩, List.Perm.refl _⟩
+              exact ⟨⟨hok0.sorted, hok0.ids, hok0.userKind, hok0.wc, fun _ _ => rfl, hok0.to⟩, List.Perm.refl _⟩
             · have : (!e1.cfg.drainOneAtATime) = true := by simp [e1, hd]
               rw [if_pos this]
-              exact ⟨⟨hok0.sorted, hok0.ids, hok0.userKind, hok0.wc, fun hh _ => absurd hh hd⟩, List.Perm.refl _⟩
+              exact ⟨⟨hok0.sorted, hok0.ids, hok0.userKind, hok0.wc, fun hh _ => absurd hh hd, hok0.to⟩, List.Perm.refl _⟩
           exact (this hok).1
         have hq2 : HQ e2 := by
           unfold e2 Engine.initSlowStart
@@ -1241,7 +1241,8 @@ theorem processAckTimeouts_np : ∀ (fuel : Nat) (e : Engine), e.core.Ok → (En
     · rename_i id deadline _
       split
       · simp only []
-        have hok1 : ({ e with timeouts := e.timeouts.erase (id, deadline) } : Engine).core.Ok := hok
+        have hok1 : ({ e with timeouts := e.timeouts.erase (id, deadline) } : Engine).core.Ok :=
+          ((Pres.of_core_wc_to (e := e) e.pendingWC (e.timeouts.erase (id, deadline)) rfl (fun _ hx => hx) (fun _ hx => List.mem_of_mem_erase hx)) hok).1
         have n1 := completeFailure_np _ id "AckTimeout" hok1
         have hok2 := ((completeFailure_pres ({ e with timeouts := e.timeouts.erase (id, deadline) } : Engine) id "AckTimeout") hok1).1
         exact n1.fold (ih _ hok2)
@@ -1331,7 +1332,7 @@ theorem step_np (e : Engine) (ev : Event) (hinv : Inv2 e) (hcap : ev.capOk) : (s
   obtain ⟨hi, hx⟩ := hinv
   have hb : ∀ t, Inv (e.begin t) := fun t => by
     obtain ⟨hok, h, hD, hS⟩ := hi
-    exact ⟨⟨hok.sorted, hok.ids, hok.userKind, hok.wc, hok.slow⟩, h, hD, hS⟩
+    exact ⟨⟨hok.sorted, hok.ids, hok.userKind, hok.wc, hok.slow, hok.to⟩, h, hD, hS⟩
   have hbx : ∀ t, Extra false [] (e.begin t).view := fun t => hx
   cases ev with
   | user t u => exact handleUser_np (e.begin t) u
